@@ -8,6 +8,7 @@ import EpsModel.Mask
 import EpsModel.Schema
 import EpsModel.Cursor
 import EpsModel.Iter
+import EpsModel.Loaders
 import EpsModel.XXH3
 open Eps
 
@@ -219,6 +220,25 @@ def step (st : St) (line : String) : St × Option String :=
         (st, some ("fromhex | F " ++ showRes (fun (x : Val × Nat) => showVal x.1 ++ " " ++ toString x.2) (t.deFull H s) ++
                    " | E " ++ showRes (fun (x : EVal × Nat) => showEVal x.1 ++ " " ++ toString x.2) (t.deEps H r s)))
       | _, _ => (st, some "badval")
+  | ["load", i, loader, flags, val] =>
+      match i.toNat?.bind (st.types[·]?), flags.toNat?, parseVal val with
+      | some t, some fl, some v =>
+        if !t.wt v then (st, some "illtyped") else
+        let name := st.names.getD i.toNat! []
+        let hdr := t.header H name
+        let file := t.ser H name v
+        let m := trues hdr.length ++ t.encMask v hdr.length
+        let tailStr := " store=true file=" ++ maskedHex file m ++ " mflags=" ++ toString (mmapFlags fl)
+        match loader with
+        | "full" =>
+          (st, some ("load " ++ showRes (fun (x : Val × Nat) => showVal x.1 ++ " region=0 basemod=0 tailzero=true moved=true kind=0") (t.deFull H file) ++ tailStr))
+        | _ =>
+          let (l, kind) := match loader with
+            | "mem" => (Loader.mem, 1) | "mmap" => (Loader.mmap, 2) | _ => (Loader.map, 2)
+          let region := regionOf l file
+          (st, some ("load " ++ showRes (fun (x : EVal × Nat) => showEVal x.1 ++ " region=" ++ toString region.length ++
+              " basemod=0 tailzero=true moved=true kind=" ++ toString kind) (t.deEps H 0 region) ++ tailStr))
+      | _, _, _ => (st, some "badval")
   | ["alloc", i, r, val] =>
       match i.toNat?.bind (st.types[·]?), r.toNat?, parseVal val with
       | some t, some r, some v =>
